@@ -44,6 +44,7 @@ func randView(r *rng, cur int, sh []int) string {
 
 func genC04(tier string, r *rng, emit func(string)) {
 	genXKinds("C04", emit)
+	genXKinds("C04copy", emit)
 	thorough := tier == "thorough"
 	n := 12000
 	if thorough {
